@@ -49,6 +49,8 @@ mod c19_multi;
 mod c16_adversary;
 #[path = "../shared/c19_async.rs"]
 mod c19_async;
+#[path = "../shared/c19_gz.rs"]
+mod c19_gz;
 
 // ---------------------------------------------------------------------------------------------
 // file specification
@@ -940,6 +942,7 @@ fn run(c: &Case) -> Obs {
         "via" => c19_multi::run_via(c),
         "hdr" => c19_multi::run_hdr(c),
         "aq" => c19_async::run_aq(c),
+        "gz" | "gzb" => c19_gz::run_gz(c),
         _ => Obs::ok("-", false),
     }
 }
@@ -1132,6 +1135,7 @@ fn generate(rng: &mut Rng, tier: &str, w: &mut CaseWriter) {
     }
     c19_multi::generate_multi(rng, thorough, w);
     c19_async::generate_async(rng, thorough, w);
+    c19_gz::generate_gz(rng, thorough, w);
 }
 
 fn main() {
